@@ -330,3 +330,43 @@ func RunBlocks(sc *Script, n int) (*world.World, int64) {
 	}
 	return w, r.h
 }
+
+
+// RunPart executes blocks [from, to) of the script on the application of w (a child process of the real-restart
+// leg of C03). from == 0 expects a fresh world (InitChain + BeginBlock(1) done); otherwise the application has just
+// been loaded from its database and the block in progress is begun here. It returns the transcript items of its part.
+func RunPart(sc *Script, w *world.World, from, to int) *Transcript {
+	r := &runner{sc: sc, w: w, tr: &Transcript{}}
+	r.h = w.App.LastBlockHeight() + 1
+	if from > 0 {
+		bb := w.App.BeginBlock(abci.RequestBeginBlock{Header: w.Header(r.h)})
+		bbz, _ := bb.Marshal()
+		r.tr.Items = append(r.tr.Items, Item{What: fmt.Sprintf("begin %d", r.h), Hash: hashOf(bbz)})
+	}
+	for bi := from; bi < to && bi < len(sc.Blocks); bi++ {
+		blk := sc.Blocks[bi]
+		for _, spec := range blk.Txs {
+			msg := spec.Build(w, w.DeliverCtx(r.h))
+			res := w.App.DeliverTx(abci.RequestDeliverTx{Tx: r.sign(msg)})
+			r.tr.Items = append(r.tr.Items, Item{What: fmt.Sprintf("b%d tx %s", bi, spec.Name), Hash: deliverHash(res), Note: fmt.Sprintf("code=%d gas=%d %.60s", res.Code, res.GasUsed, res.Log)})
+		}
+		end := r.h
+		if blk.SkipTo > end {
+			end = blk.SkipTo
+		}
+		for r.h <= end {
+			eb := w.App.EndBlock(abci.RequestEndBlock{Height: r.h})
+			ebz, _ := eb.Marshal()
+			c := w.App.Commit()
+			r.tr.Items = append(r.tr.Items, Item{What: fmt.Sprintf("end+commit %d", r.h), Hash: hashOf(ebz, c.Data)})
+			r.h++
+			last := bi == to-1 && r.h > end
+			if !last {
+				bb := w.App.BeginBlock(abci.RequestBeginBlock{Header: w.Header(r.h)})
+				bbz, _ := bb.Marshal()
+				r.tr.Items = append(r.tr.Items, Item{What: fmt.Sprintf("begin %d", r.h), Hash: hashOf(bbz)})
+			}
+		}
+	}
+	return r.tr
+}
